@@ -56,6 +56,7 @@ def c08(tier):
     ed.ed5(P, C)
     ed.ed6(P, C)
     ed.ed7(P, C)
+    ed.ed8(P, C)
     C.extra["units"] = sorted(P.units.keys())
     C.extra["cfitsio_call_sites"] = n
     return C.finish()
@@ -192,6 +193,9 @@ def c07(tier):
     cw.cw4(P, C, only=("readsplinefitstable", "readsplinefitstable_mem"))
     C.extra["units"] = sorted(P.units.keys())
     sm.vg5(P, C)
+    # 'on every table that a read returns, lookup terminates and is memory-safe': the reader admits repeated knots, on which the bisection
+    # alone neither stays inside [order, naxes-1] nor terminates at the last knot — the range short-cuts of searchcenters are what bounds it
+    kb.sc123(P, C)
     return C.finish()
 
 
@@ -278,6 +282,9 @@ def c04(tier):
     kb.sc123(P, C)
     # the call operator looks the centres up into a scratch array of its own: it must hold one centre per dimension
     kb.kb8(P, C)
+    # lookup takes its acceptance limit and bisection bound from nknots[i] and knots[i]: the one operation of the library that moves these
+    # per-dimension arrays (permuteDimensions) must move them together, or lookup on the permuted table reads past a knot vector
+    pm.run(P, C)
     C.extra["units"] = sorted(P.units.keys())
     return C.finish()
 
@@ -360,6 +367,8 @@ def c10(tier):
     C.extra["units"] = sorted(P.units.keys())
     sp.sp3(P, C)
     sp.mm1(P, C)
+    # the monotonic fit forms F and R through the same slicemultiply / flatten index arithmetic
+    gw.iw1(P, C)
     return C.finish()
 
 
@@ -459,6 +468,7 @@ def c06(tier):
     fs.fs6(P, C)
     fs.fs7(P, C)
     fs.fs8(P, C)
+    fs.fs10(P, C)
     kb.kb8(P, C)
     # legacy files (no EXTENTS / PERIOD): a failed HDU move must keep its status until tested
     sm.sm6(P, C)
@@ -511,6 +521,7 @@ def c09(tier):
     gw.run(P, C)
     # the data term: the basis matrix of each dimension (GW-4 treats bsplinebasis as given)
     ge.ge3(P, C)
+    gw.iw1(P, C)
     C.extra["units"] = sorted(P.units.keys())
     C.extra["not_decided"] = ["optimality", "polynomial reproduction", "index arithmetic of box/slicemultiply/kronecker_product", "divided_diffs formula"]
     return C.finish()
@@ -538,6 +549,9 @@ def c01(tier):
     dp.cl4(P, C)
     dp.cl1(P, C)
     dp.dp(P, C)
+    # 'both precisions': the double instantiations keep every intermediate in double
+    selftest.run(P, C, ('pr1',))
+    dp.pr1(P, C)
     C.extra["units"] = sorted(P.units.keys())
     C.extra["not_decided"] = ["the de Boor recurrence itself", "rounding", "the coefficient walk's index arithmetic beyond clone agreement"]
     return C.finish()
